@@ -36,10 +36,20 @@ def closers(prog):
             continue
         closes = False
         resets = False
+        me_ = "d%d->fd" % f.params[0]["d"]
+        # locals that hold a copy of the descriptor (sockfd = self->fd; close(sockfd);)
+        copies = set()
+        for n in walk(f.body):
+            if n.get("k") == "assign" and n.get("op") == "=" and fd_path(n["ch"][1]) == me_ and X.strip(n["ch"][0]).get("k") == "ref":
+                copies.add(X.strip(n["ch"][0])["d"])
+            if n.get("k") == "decl":
+                for dcl in n.get("decls", ()):
+                    if dcl.get("init") is not None and fd_path(dcl["init"]) == me_:
+                        copies.add(dcl["d"])
         for n in walk(f.body):
             if n.get("k") == "call" and X.callee_name(n) == "close" and n["ch"][1:]:
                 p = fd_path(n["ch"][1])
-                if p == "d%d->fd" % f.params[0]["d"]:
+                if p == me_ or X.strip(n["ch"][1]).get("d") in copies:
                     closes = True
             if n.get("k") == "assign" and fd_path(n["ch"][0]) == "d%d->fd" % f.params[0]["d"] and X.const_val(n["ch"][1]) == -1:
                 resets = True
@@ -63,6 +73,11 @@ def analyse_fd(chk, prog, f, closer_fns, fresh_ctors):
             args = n["ch"][1:]
             if cn == "close" and args:
                 p = fd_path(args[0])
+                if p is None:
+                    a0 = X.strip(args[0])
+                    for x in state:
+                        if x[0] == "fdcopy" and a0.get("k") == "ref" and x[1] == a0.get("d"):
+                            p = x[2]
                 if p is not None:
                     return (state | {("closed", p), ("dangling", p)})
             if cn in closer_fns and args:
@@ -78,6 +93,9 @@ def analyse_fd(chk, prog, f, closer_fns, fresh_ctors):
                     st.add(("closed", p))
                 return frozenset(st)
             l = X.strip(n["ch"][0])
+            if l.get("k") == "ref" and l.get("rk") == "local" and fd_path(n["ch"][1]) is not None:
+                # a local copy of the descriptor value: closing the copy closes the field's descriptor
+                return frozenset(x for x in state if not (x[0] == "fdcopy" and x[1] == l["d"])) | {("fdcopy", l["d"], fd_path(n["ch"][1]))}
             if l.get("k") == "ref" and l.get("rk") == "local":
                 p = "d%d->fd" % l["d"]
                 st = set(x for x in state if not x[1] == p)
@@ -102,7 +120,7 @@ def analyse_fd(chk, prog, f, closer_fns, fresh_ctors):
 
     def join(a, b):
         # closed: must (intersection); dangling: may (union)
-        return frozenset([x for x in a if x[0] == "closed" and x in b] + [x for x in (a | b) if x[0] == "dangling"])
+        return frozenset([x for x in a if x[0] in ("closed", "fdcopy") and x in b] + [x for x in (a | b) if x[0] == "dangling"])
 
     def visit(state, n, blk):
         if n.get("k") == "assign" and n.get("op") == "=":
